@@ -654,6 +654,42 @@ def rule_r9(ctx) -> List[R.Inst]:
     return [R.ok(rid, "one-per-change", file, loops[0].lineno, idiom="1 initial entry + exactly one append per consecutive pair")]
 
 
+def rule_r11(ctx) -> List[R.Inst]:
+    """the fraction table contains exactly the fractions whose denominator is one of the requested divisions: the `divisions`
+    argument must constrain the table, not only size it"""
+    M = ctx.M
+    rid = "C10.R11"
+    fn = M.fn(SNAPPER + ".__init__")
+    file = M.mods[fn.mod].rel
+    p = [a.arg for a in fn.node.args.args if a.arg != "self"]
+    if not p:
+        return [R.undec(rid, "Snapper.divisions", file, fn.node.lineno, "no divisions parameter")]
+    d = p[0]
+    aliases = {d}
+    uses = []
+    parents = {}
+    for n in ast.walk(fn.node):
+        for ch in ast.iter_child_nodes(n):
+            parents[id(ch)] = n
+    for n in ast.walk(fn.node):
+        if isinstance(n, ast.Name) and n.id in aliases and isinstance(n.ctx, ast.Load):
+            par = parents.get(id(n))
+            if isinstance(par, ast.Call) and call_name(par) in ("asarray", "array", "list", "tuple", "sorted", "set") and \
+                    isinstance(parents.get(id(par)), ast.Assign) and unparse(parents[id(par)].targets[0]) in aliases:
+                continue                      # re-binding of the same name
+            uses.append((n, par))
+    sizing = [u for u in uses if isinstance(u[1], ast.Call) and call_name(u[1]) in ("max", "len", "min")]
+    filtering = [u for u in uses if u not in sizing]
+    if filtering:
+        return [R.ok(rid, "Snapper.divisions", file, filtering[0][0].lineno,
+                     idiom=f"'{d}' takes part in building the table ({unparse(filtering[0][1])[:50]})")]
+    return [R.viol(rid, "Snapper.divisions", file, (sizing[0][0] if sizing else fn.node).lineno,
+                   f"'{d}' is only used as max({d}): the table holds every fraction with a denominator up to that maximum, so a snapper "
+                   f"built for (1, 2, 4) returns thirds, and the default one returns elevenths or 95ths although 11 and 95 are not "
+                   f"allowed divisions — 'nearest ALLOWED fraction' does not hold",
+                   construct=f"Snapper.__init__: {d} used only through max()")]
+
+
 def rule_dep(ctx):
     """obligations inherited from shared code the timing operations reach (list accessors under BpmList.to_timing_map,
     hidden state, copy hooks); the timing group itself is decided by the rules above"""
@@ -673,6 +709,7 @@ SPECS = [
     RuleSpec("C10.R7", rule_r7, 1, "A5", "a list's timing map has one change per tempo row, fields from the same row"),
     RuleSpec("C10.R8", rule_r8, 24, "A7", "RAConst unit helpers: exact scaling named by the function, python float result"),
     RuleSpec("C10.R9", rule_r9, 1, "A8", "one position entry per tempo change (parallel lists)"),
+    RuleSpec("C10.R11", rule_r11, 1, "A7", "the requested divisions constrain the fraction table"),
     RuleSpec("C10.D", rule_dep, 1, "M0", "rules of the shared code (list classes and their generated accessors, hidden state) that the timing operations reach"),
     RuleSpec("C10.R6", rule_r6, 6, "A3", "snapping and the position/time conversions write no hidden state"),
 ]
